@@ -19,6 +19,7 @@ func init() { registry["C07"] = &propDef{e1: c07Scenarios, e2: c07E2} }
 
 type c07Input struct {
 	Disabled int      `json:"disabled_mask"` // bit i: process i is disabled: true
+	FG       int      `json:"foreground_mask"` // bit i: process i is is_foreground: true
 	NS       int      `json:"namespace_mask"` // bit i: process i is in namespace "sel" (the one selected), else in "other"
 	UseNS    bool     `json:"namespace_selection"`
 	N        int      `json:"n"`
@@ -44,6 +45,9 @@ func (in c07Input) yaml() string {
 		}
 		if in.Disabled>>i&1 == 1 {
 			b.WriteString("    disabled: true\n")
+		}
+		if in.FG>>i&1 == 1 {
+			b.WriteString("    is_foreground: true\n")
 		}
 		if in.UseNS {
 			if in.NS>>i&1 == 1 {
@@ -196,6 +200,28 @@ func c07E2(tier string, o *E2Out) {
 							in := c07Input{N: c.n, Edges: edges, Strict: strict, Replicas: 1, Disabled: mask}
 							c07Disabled(o, dir, in)
 						}
+						// every marking normal / disabled / foreground (acyclic, no dangling name, non-strict)
+						if !strict && dang < 0 {
+							in0 := c07Input{N: c.n, Edges: edges}
+							if !in0.cyclic() {
+								pow := 1
+								for i := 0; i < c.n; i++ {
+									pow *= 3
+								}
+								for m := 1; m < pow; m++ {
+									in := c07Input{N: c.n, Edges: edges, Replicas: 1}
+									for i, x := 0, m; i < c.n; i, x = i+1, x/3 {
+										switch x % 3 {
+										case 1:
+											in.Disabled |= 1 << i
+										case 2:
+											in.FG |= 1 << i
+										}
+									}
+									c07Marked(o, dir, in)
+								}
+							}
+						}
 						// namespace markings with the namespace "sel" selected (n <= 3, every marking)
 						for mask := 0; mask < 1<<c.n; mask++ {
 							c07Namespaces(o, dir, c07Input{N: c.n, Edges: edges, Strict: strict, Replicas: 1, NS: mask, UseNS: true})
@@ -205,6 +231,98 @@ func c07E2(tier string, o *E2Out) {
 				if c.n == 1 && dang == 0 {
 					break
 				}
+			}
+		}
+	}
+}
+
+// c07Marked: selection and run order when some processes are disabled or foreground (deferred). The closure
+// of a request follows every dependency edge, through deferred processes too; everything in it is enabled
+// except foreground processes, everything else is listed as disabled. The run order lists every process that
+// is to run once, after all its transitive dependencies that are to run.
+func c07Marked(o *E2Out, dir string, in c07Input) {
+	files := map[string]string{"pc.yaml": in.yaml()}
+	prj, err := loadFiles(dir, files, []string{"pc.yaml"}, in.Strict)
+	o.Evaluations++
+	if err != nil {
+		return // a disabled dependency of an enabled process is refused in some modes: C07 says nothing about it
+	}
+	cl := closure(in.adj())
+	deferred := func(i int) bool { return in.Disabled>>i&1 == 1 || in.FG>>i&1 == 1 }
+	order, oerr := prj.GetDependenciesOrderNames()
+	if oerr != nil {
+		o.violation("C07", "order:error", fmt.Sprintf("GetDependenciesOrderNames fails on an accepted project: %v", oerr), in)
+		return
+	}
+	pos := map[string]int{}
+	for i, n := range order {
+		if _, dup := pos[n]; dup {
+			o.violation("C07", "order:duplicate", fmt.Sprintf("dependency order %v lists %s twice", order, n), in)
+		}
+		pos[n] = i
+	}
+	for i := 0; i < in.N; i++ {
+		pi, ok := pos[c07Name(i)]
+		if ok == deferred(i) {
+			o.violation("C07", "order:deferred", fmt.Sprintf("dependency order %v: %s listed=%v, deferred=%v", order, c07Name(i), ok, deferred(i)), in)
+			continue
+		}
+		for j := 0; ok && j < in.N; j++ {
+			if pj, okj := pos[c07Name(j)]; okj && cl[i][j] && i != j && pj > pi {
+				o.violation("C07", "order:before-dependency", fmt.Sprintf("dependency order %v lists %s before its (transitive) dependency %s", order, c07Name(i), c07Name(j)), in)
+			}
+		}
+	}
+	for sub := 1; sub < 1<<in.N; sub++ {
+		for _, nodeps := range []bool{false, true} {
+			p2, err := loadFiles(dir, files, []string{"pc.yaml"}, in.Strict)
+			if err != nil {
+				return
+			}
+			var req []string
+			want := map[string]bool{}
+			for i := 0; i < in.N; i++ {
+				if sub>>i&1 == 0 {
+					continue
+				}
+				req = append(req, c07Name(i))
+				want[c07Name(i)] = true
+				for j := 0; !nodeps && j < in.N; j++ {
+					if cl[i][j] {
+						want[c07Name(j)] = true
+					}
+				}
+			}
+			if !nodeps {
+				for i := 0; i < in.N; i++ {
+					if in.FG>>i&1 == 1 {
+						delete(want, c07Name(i)) // a foreground process is never started automatically
+					}
+				}
+			}
+			o.Evaluations++
+			po := &app.ProjectOpts{}
+			po.WithProject(p2).WithProcessesToRun(req).WithNoDeps(nodeps)
+			if _, err := app.NewProjectRunner(po); err != nil {
+				o.violation("C07", "selection:error", fmt.Sprintf("NewProjectRunner(%v, nodeps=%v): %v", req, nodeps, err), in)
+				continue
+			}
+			var extra, missing []string
+			for name, pc := range p2.Processes {
+				if !pc.Disabled && !want[pc.Name] {
+					extra = append(extra, name)
+				}
+				if pc.Disabled && want[pc.Name] {
+					missing = append(missing, name)
+				}
+			}
+			sort.Strings(extra)
+			sort.Strings(missing)
+			if len(extra) > 0 {
+				o.violation("C07", "selection:extra:marked", fmt.Sprintf("requested %v (no-deps=%v): %v enabled but neither requested nor a dependency", req, nodeps, extra), in)
+			}
+			if len(missing) > 0 {
+				o.violation("C07", "selection:missing:marked", fmt.Sprintf("requested %v (no-deps=%v): %v disabled although requested or a transitive dependency", req, nodeps, missing), in)
 			}
 		}
 	}
